@@ -74,8 +74,9 @@ def nodes (g : GraphS) : List Nat := List.range g.tasks.size
 def stateOf (g : GraphS) (n : Nat) : TState := ((g.task? n).map (·.state)).getD .virtual
 def completeOf (g : GraphS) (n : Nat) : Bool := ((g.task? n).map (·.isComplete)).getD false
 
-/-- `Graph.depth_first(node)` exactly as written: a node is pushed once per
-incoming edge seen before it is visited, and yielded every time it is popped. -/
+/-- `Graph.depth_first(node)`: an explicit stack; children are pushed in order and
+popped from the right; a node popped again after it was visited is skipped, so every
+reachable node is yielded exactly once. -/
 def dfsFrom (g : GraphS) (start : Nat) : List Nat :=
   go (g.size * g.size + g.size + 1) [start] [] []
 where
@@ -83,10 +84,11 @@ where
     | 0, _, _, acc => acc.reverse
     | _, [], _, acc => acc.reverse
     | fuel + 1, n :: stack, visited, acc =>
-      let visited := if visited.contains n then visited else n :: visited
-      -- children are appended to the right of the deque and popped from the right
-      let push := (g.kids n).filter (fun c => !visited.contains c)
-      go fuel (push.reverse ++ stack) visited (n :: acc)
+      if visited.contains n then go fuel stack visited acc
+      else
+        let visited := n :: visited
+        let push := (g.kids n).filter (fun c => !visited.contains c)
+        go fuel (push.reverse ++ stack) visited (n :: acc)
 
 /-- `is_source_task` / `is_sink_task` (all tasks of a graph share one timestamp,
 so the "same task of the neighbouring timestamp" clause never applies). -/
